@@ -319,8 +319,8 @@ class Plan:
         parent, name = self.split(path)
         p = self.paths.get(parent, NO_OBJ)
         t = self.paths.get(target, NO_OBJ) if target != "/" else NO_OBJ
-        if t in self.objs and p in self.objs and self.reaches(t, p):
-            return      # a hard-link cycle: legal HDF5, but hdf5.Open rejects such a file since d981a21 (reported)
+        if t in self.objs and p in self.objs and self.reaches(t, p) and self.rng.random() < 0.5:
+            return      # hard-link cycles (legal HDF5; Open lists the closing link without descending since 8c0b97a): kept rarer
         nl = len(name.encode())
         dup = p in self.objs and self.objs[p]["kind"] == "group" and name in self.objs[p]["children"]
         op = {"op": "hardlink", "path": path, "target": target}
